@@ -941,6 +941,13 @@ class Interp:
                 return r
         if t is ast.Mult:
             for x, y in ((a, b), (b, a)):
+                if isinstance(y, K) and isinstance(y.v, int) and not isinstance(y.v, bool) and isinstance(x, Term):
+                    is_str = x.op in ('builtin:str', 'fstr', 'hex', 'decode', 'strfmt', 'builtin:bin', 'builtin:format', 'builtin:chr')
+                    is_bytes = not is_str and isinstance(self.models.bytes_len(self, x), K)
+                    if (is_str or is_bytes) and y.v <= 0:
+                        return K('' if is_str else b'')         # a text / byte string repeated zero times
+                    if (is_str or is_bytes) and y.v == 1:
+                        return x
                 if isinstance(x, ListV) and isinstance(y, K) and isinstance(y.v, int):
                     return ListV(x.items * y.v, x.tup)
                 if isinstance(x, K) and isinstance(x.v, (str, bytes)) and isinstance(y, PInt):
